@@ -1,34 +1,51 @@
 /-
-Model of the receive-side replay discipline (C12): `ConnectionState.Decrypt` and
-`ConnectionState.VerifyRelay` (connection_state.go). Both run the same three-step program on the
-tunnel's window (`Model/Bits.lean`):
+Model of the receive-side replay discipline (C12): `ConnectionState.Decrypt`, `ConnectionState.VerifyRelay`
+(connection_state.go) and the dispatch of `readOutsidePackets` / `handleOutsideRelayPacket` (outside.go)
+as far as replay protection is concerned.
+
+`Decrypt` and `VerifyRelay` run the same three-step program on the window of the tunnel the packet
+arrived on (`Model/Bits.lean`):
 
     decryptLock.Lock(); ok := window.Check(ctr);  decryptLock.Unlock();  if !ok → ErrAlreadySeen
     dKey.DecryptDanger(…, ctr, …)                                         if err → return err
     decryptLock.Lock(); ok := window.Update(ctr); decryptLock.Unlock();  if !ok → ErrAlreadySeen
-    return plaintext                      -- only now does the caller act on / deliver the packet
+    return                                 -- only now does the caller act on the packet
 
-The two locked regions are atomic steps (translator facts `bits.Decrypt.calls`, `bits.VerifyRelay.calls`);
-the AEAD open touches no shared state and is an oracle `authOK` of the packet. A concurrent execution
-is a list of thread identifiers: each occurrence lets that thread (goroutine handling one received
-packet) perform its next step. Thread identifiers are arbitrary naturals and a finished thread's
-further occurrences are no-ops, so *every* list is a schedule; the packet table `pk` is arbitrary
-(any counters, duplicates and replays included, authentic or forged).
+A received UDP packet is a list of *layers*, outermost first:
+  * a direct packet: one layer (`Decrypt` on its tunnel), then the handlers of `readOutsidePackets`;
+  * a relay packet at a forwarding relay: one layer (`VerifyRelay` on the tunnel to the sender), then
+    `handleOutsideRelayPacket` forwards it;
+  * a relay packet at the terminal peer: two layers — `VerifyRelay` on the relay tunnel's window, then
+    `handleOutsideRelayPacket` calls `readOutsidePackets` again on the carried packet, which runs
+    `Decrypt` on the end-to-end tunnel's window.
+A layer is *acted upon* when its `Update` succeeds; only then does the thread go on to the next layer.
+
+The locked regions are atomic steps (translator facts `bits.Decrypt.calls`, `bits.VerifyRelay.calls`,
+`decrypt.readOutsidePackets.calls`); the AEAD open touches no shared state and is an oracle `authOK`
+of the layer. A concurrent execution is a list of thread identifiers: each occurrence lets that thread
+(goroutine handling one received UDP packet) perform its next step. Thread identifiers and tunnel
+identifiers are arbitrary naturals and a finished thread's further occurrences are no-ops, so *every*
+list is a schedule; the packet table `pk` is arbitrary (any nesting depth, any counters, duplicates and
+replays included, authentic or forged).
 -/
 import Nebula.Model.Bits
 
 namespace Nebula.Decrypt
 open Nebula.Bits
 
-/-- what the replay logic sees of a received packet -/
-structure Pkt where
+/-- what the replay logic sees of one layer of a received packet -/
+structure Layer where
+  /-- the tunnel (ConnectionState) whose window and key this layer is checked against -/
+  tunnel : Nat
   /-- message counter in the (authenticated) header -/
   ctr : U64
-  /-- does the AEAD open under the tunnel key and this counter succeed? -/
+  /-- does the AEAD open under that tunnel's key and this counter succeed? -/
   authOK : Bool
 
+abbrev Pkt := List Layer
+
 inductive PC where
-  | start | checked | opened | done
+  | start | checked | opened
   deriving DecidableEq, Repr
 
 /-- result of one atomic step (observable in the harness) -/
@@ -37,36 +54,49 @@ inductive StepResult where
   deriving DecidableEq, Repr
 
 structure State where
-  window : Bits
-  pc : Nat → PC
-  /-- (thread, counter) of every packet handed to the caller, most recent first -/
-  delivered : List (Nat × U64)
-  /-- ghost: counters passed to `window.Update` so far, most recent first -/
-  hist : List U64
+  /-- replay window of every tunnel -/
+  win : Nat → Bits
+  /-- per thread: index of the layer being processed and position inside its program -/
+  pc : Nat → Nat × PC
+  /-- (thread, tunnel, counter) of every layer acted upon, most recent first -/
+  delivered : List (Nat × Nat × U64)
+  /-- ghost: per tunnel, the counters passed to `window.Update` so far, most recent first -/
+  hist : Nat → List U64
 
-def init (b : Bits) : State := { window := b, pc := fun _ => .start, delivered := [], hist := [] }
+def init (b0 : Nat → Bits) : State :=
+  { win := b0, pc := fun _ => (0, .start), delivered := [], hist := fun _ => [] }
 
-def setPC (s : State) (t : Nat) (p : PC) : Nat → PC := fun t' => if t' = t then p else s.pc t'
+def setPC (s : State) (t : Nat) (p : Nat × PC) : Nat → Nat × PC := fun t' => if t' = t then p else s.pc t'
 
 def step (pk : Nat → Pkt) (s : State) (t : Nat) : State × StepResult :=
-  let p := pk t
-  match s.pc t with
-  | .start =>
-    if check s.window p.ctr then ({ s with pc := setPC s t .checked }, .checkOK)
-    else ({ s with pc := setPC s t .done }, .checkSeen)
-  | .checked =>
-    if p.authOK then ({ s with pc := setPC s t .opened }, .authOK)
-    else ({ s with pc := setPC s t .done }, .authFail)
-  | .opened =>
-    let r := update s.window p.ctr
-    if r.2 then
-      ({ window := r.1, pc := setPC s t .done, delivered := (t, p.ctr) :: s.delivered, hist := p.ctr :: s.hist }, .delivered)
-    else
-      ({ s with window := r.1, pc := setPC s t .done, hist := p.ctr :: s.hist }, .updateSeen)
-  | .done => (s, .noop)
+  match (pk t)[(s.pc t).1]? with
+  | none => (s, .noop)                    -- all layers done, or the packet was dropped
+  | some ly =>
+    let li := (s.pc t).1
+    let drop : Nat × PC := ((pk t).length, .start)
+    match (s.pc t).2 with
+    | .start =>
+      if check (s.win ly.tunnel) ly.ctr then ({ s with pc := setPC s t (li, .checked) }, .checkOK)
+      else ({ s with pc := setPC s t drop }, .checkSeen)
+    | .checked =>
+      if ly.authOK then ({ s with pc := setPC s t (li, .opened) }, .authOK)
+      else ({ s with pc := setPC s t drop }, .authFail)
+    | .opened =>
+      let r := update (s.win ly.tunnel) ly.ctr
+      let win' : Nat → Bits := fun T => if T = ly.tunnel then r.1 else s.win T
+      let hist' : Nat → List U64 := fun T => if T = ly.tunnel then ly.ctr :: s.hist T else s.hist T
+      if r.2 then
+        ({ win := win', pc := setPC s t (li + 1, .start),
+           delivered := (t, ly.tunnel, ly.ctr) :: s.delivered, hist := hist' }, .delivered)
+      else
+        ({ s with win := win', hist := hist', pc := setPC s t drop }, .updateSeen)
 
 def run (pk : Nat → Pkt) (s : State) (sched : List Nat) : State :=
   sched.foldl (fun s t => (step pk s t).1) s
+
+/-- the counters acted upon on tunnel `T`, most recent first -/
+def onTunnel (T : Nat) (l : List (Nat × Nat × U64)) : List U64 :=
+  l.filterMap (fun e => if e.2.1 = T then some e.2.2 else none)
 
 /-- sequential history of `Update` calls on one window (most recent first): final window and the
 accepted counters (most recent first) -/
